@@ -403,4 +403,136 @@ theorem parseDecimal_iff {t : List Char} {d : Decimal} :
       rw [h1, h2]
       exact parseExp_some_iff.2 ⟨x, hx, rfl⟩
 
+theorem NumberVal.head {t : List Char} {d : Decimal} (h : NumberVal t d) :
+    ∃ c t', t = c :: t' ∧ isDigit c = true := by
+  cases h with
+  | int hD _ => obtain ⟨a, t, rfl, ha⟩ := hD.head; exact ⟨a, _, rfl, ha⟩
+  | frac hD _ _ => obtain ⟨a, t, rfl, ha⟩ := hD.head; exact ⟨a, _, rfl, ha⟩
+
+/-! ### Longest match for numbers -/
+
+theorem prefix_takeWhile {α} {p : α → Bool} {E l : List α} (hE : ∀ x ∈ E, p x = true)
+    (h : E <+: l) : E <+: takeWhile p l := by
+  obtain ⟨k, rfl⟩ := h
+  rw [takeWhile_append_of_pos hE]
+  exact prefix_append _ _
+
+theorem prefix_stop {α} {p : α → Bool} {D rest s : List α} {c : α} (h : D ++ c :: rest <+: s)
+    (hD : ∀ x ∈ D, p x = true) (hc : p c = false) :
+    takeWhile p s = D ∧ ∃ rest', dropWhile p s = c :: rest' ∧ rest <+: rest' := by
+  obtain ⟨k, rfl⟩ := h
+  have e : D ++ c :: rest ++ k = D ++ c :: (rest ++ k) := by simp
+  rw [e]
+  exact ⟨takeWhile_append_stop hD (stops_cons hc),
+    _, dropWhile_append_stop hD (stops_cons hc), prefix_append _ _⟩
+
+theorem ExpVal.cases' {e : List Char} {x : Int} (h : ExpVal e x) : e = [] ∨ ExpText e := by
+  cases h with
+  | none => exact .inl rfl
+  | pos hE => exact .inr (.pos hE)
+  | neg hE => exact .inr (.neg hE)
+
+theorem ExpText.head {e : List Char} (h : ExpText e) : ∃ e1, e = 'e' :: e1 := by
+  cases h <;> exact ⟨_, rfl⟩
+
+/-- an exponent text that is a prefix of `r` is found (possibly extended) by `scanExponent` -/
+theorem scanExponent_of_prefix {e r : List Char} (he : ExpText e) (h : e <+: r) :
+    ∃ e' r', scanExponent r = some (e', r') ∧ e.length ≤ e'.length := by
+  cases he with
+  | @pos E hE =>
+    obtain ⟨k, rfl⟩ := h
+    have hp : E <+: E ++ k := prefix_append _ _
+    have hnm : ∀ t, E ++ k ≠ '-' :: t := by
+      obtain ⟨c, t', rfl, hc⟩ := hE.head
+      intro t e; cases e; exact absurd hc (by decide)
+    have hpre := prefix_takeWhile hE.all hp
+    have hne : ((E ++ k).takeWhile isDigit).isEmpty = false := by
+      obtain ⟨c, t', rfl, hc⟩ := hE.head
+      obtain ⟨k', hk'⟩ := hpre
+      rw [← hk']; rfl
+    rw [cons_append, scanExponent_plain hnm, hne]
+    exact ⟨_, _, rfl, by simpa using hpre.length_le⟩
+  | @neg E hE =>
+    obtain ⟨k, rfl⟩ := h
+    have hp : E <+: E ++ k := prefix_append _ _
+    have hpre := prefix_takeWhile hE.all hp
+    have hne : ((E ++ k).takeWhile isDigit).isEmpty = false := by
+      obtain ⟨c, t', rfl, hc⟩ := hE.head
+      obtain ⟨k', hk'⟩ := hpre
+      rw [← hk']; rfl
+    rw [cons_append, cons_append, scanExponent_minus, hne]
+    exact ⟨_, _, rfl, by simpa using hpre.length_le⟩
+
+theorem scanNumber_text_exp {s e r' : List Char}
+    (h : scanExponent (s.dropWhile isDigit) = some (e, r')) :
+    (scanNumber s).text = s.takeWhile isDigit ++ e := by
+  unfold scanNumber; simp only [h]
+
+theorem scanNumber_text_fracExp {s f r1 e r2 : List Char}
+    (h0 : scanExponent (s.dropWhile isDigit) = none)
+    (h1 : scanFraction (s.dropWhile isDigit) = some (f, r1))
+    (h2 : scanExponent r1 = some (e, r2)) :
+    (scanNumber s).text = s.takeWhile isDigit ++ f ++ e := by
+  unfold scanNumber; simp only [h0, h1, h2]
+
+theorem scanNumber_text_frac {s f r1 : List Char}
+    (h0 : scanExponent (s.dropWhile isDigit) = none)
+    (h1 : scanFraction (s.dropWhile isDigit) = some (f, r1))
+    (h2 : scanExponent r1 = none) :
+    (scanNumber s).text = s.takeWhile isDigit ++ f := by
+  unfold scanNumber; simp only [h0, h1, h2]
+
+theorem takeWhile_prefix_text (s : List Char) :
+    (s.takeWhile isDigit).length ≤ (scanNumber s).text.length := by
+  unfold scanNumber
+  simp only
+  split
+  · simp
+  · split
+    · split <;> simp <;> omega
+    · simp
+
+/-- T2, numbers: no accepted literal that is a prefix of `s` is longer than the text
+    `scanNumber` returns -/
+theorem scanNumber_longest {s t : List Char} {d : Decimal} (hp : t <+: s) (ht : NumberVal t d) :
+    t.length ≤ (scanNumber s).text.length := by
+  cases ht with
+  | @int D e x hD hx =>
+    rcases hx.cases' with rfl | he
+    · have := (prefix_takeWhile hD.all (by simpa using hp)).length_le
+      have := takeWhile_prefix_text s
+      simp; omega
+    · obtain ⟨e1, rfl⟩ := he.head
+      obtain ⟨htw, rest', hdw, hpre⟩ := prefix_stop hp hD.all (by decide)
+      obtain ⟨e', r', hse, hlen⟩ := scanExponent_of_prefix (r := s.dropWhile isDigit) he
+        (by rw [hdw]; exact (prefix_cons_inj _).2 hpre)
+      rw [scanNumber_text_exp hse, htw]
+      simp at hlen ⊢; omega
+  | @frac D F e x hD hF hx =>
+    have e0 : D ++ '.' :: F ++ e = D ++ '.' :: (F ++ e) := by simp
+    rw [e0] at hp
+    obtain ⟨htw, r0', hdw, hpre⟩ := prefix_stop hp hD.all (by decide)
+    have h0 : scanExponent (s.dropWhile isDigit) = none := by
+      rw [hdw]; exact scanExponent_other (by intro r h; cases h)
+    have hFpre : F <+: r0' := (prefix_append F e).trans hpre
+    have hFtw := prefix_takeWhile hF.all hFpre
+    have hne : (r0'.takeWhile isDigit).isEmpty = false := by
+      obtain ⟨c, t', rfl, hc⟩ := hF.head
+      obtain ⟨k', hk'⟩ := hFtw
+      rw [← hk']; rfl
+    have h1 : scanFraction (s.dropWhile isDigit) =
+        some ('.' :: r0'.takeWhile isDigit, r0'.dropWhile isDigit) := by
+      rw [hdw, scanFraction_dot, hne]; rfl
+    rcases hx.cases' with rfl | he
+    · have := hFtw.length_le
+      rcases h2 : scanExponent (r0'.dropWhile isDigit) with _ | ⟨e', r2⟩
+      · rw [scanNumber_text_frac h0 h1 h2, htw]; simp; omega
+      · rw [scanNumber_text_fracExp h0 h1 h2, htw]; simp; omega
+    · obtain ⟨e1, rfl⟩ := he.head
+      obtain ⟨htw2, r1', hdw2, hpre2⟩ := prefix_stop hpre hF.all (by decide)
+      obtain ⟨e', r2, h2, hlen⟩ := scanExponent_of_prefix (r := r0'.dropWhile isDigit) he
+        (by rw [hdw2]; exact (prefix_cons_inj _).2 hpre2)
+      rw [scanNumber_text_fracExp h0 h1 h2, htw, htw2]
+      simp at hlen ⊢; omega
+
 end Calc
